@@ -4,11 +4,13 @@ Workload
   labels : every admissible XS type label (52 single letters, 52x52 two-letter labels) through
            getXSTypeNumberFromLabel / getXSTypeLabelFromNumber and through the xsType / xsTypeNum parameter setters.
   core*  : generated hex cores (vlib.gen) with random xs types, burnups (many exactly on a group boundary), fuel
-           temperatures, burnup / temperature group boundaries and per-type cross-section settings; the real
-           CrossSectionGroupManager groups them and creates the representatives.
+           temperatures, burnup / temperature group boundaries and per-type cross-section settings (one type often a
+           1D cylinder, half of them ductHeterogeneous, its block design repeated at a second elevation); the real
+           CrossSectionGroupManager groups them, creates the representatives, and groups them once more.
   rep*   : sets of 1-12 generated blocks put into the real block collections (Average, FluxWeightedAverage, Median,
-           ComponentAverage1DCylinder; by-component on/off; valid-block-type filters; weighting parameter all-zero /
-           all-positive / mixed) followed by the metamorphic variants (every member duplicated, all weights rescaled).
+           ComponentAverage1DCylinder, its duct-heterogeneous variant, ComponentAverage1DSlab on generated plate
+           blocks; by-component on/off; valid-block-type filters; weighting parameter all-zero / all-positive /
+           mixed) followed by the metamorphic variants (every member duplicated, all weights rescaled).
 Oracles are a few numpy lines written from the property statement; they read only leaf data of the member blocks
 (component number densities, volumes, areas, temperatures, block parameters) and never call the collection methods.
 """
@@ -27,7 +29,13 @@ RULE = (
     "validBlockTypes, averageByComponent, xsTempIsotope). rep: 1-12 blocks, layouts shared / mixed / one member lacking the outer "
     "component, random heights, component temperatures, number densities (some zero, some nuclides only in a few members), burnup, "
     "massHmBOL, weighting parameter all-zero / all-positive / mixed, filters over block types {fuel, igniter fuel, feed fuel, "
-    "control, shield, plenum, reflector}. A case = one grouping of one core or one representative of one member set; distinct = "
+    "control, shield, plenum, reflector}; all six representation options: Median, Average, FluxWeightedAverage, ComponentAverage1DCylinder, "
+    "the same with ductHeterogeneous (nuclide temperatures from the components inside the duct only) and ComponentAverage1DSlab (Cartesian blocks of 1-5 rectangular "
+    "plates of pairwise distinct thickness, optional zero-area void lattice component, some members in reverse plate order, one member sometimes inconsistent). "
+    "Median: the member at sorted position n//2 or (n-1)//2 of the weighted burnups is accepted, i.e. for an even number of candidates either middle "
+    "element passes and only an odd count decides the member uniquely (counted separately as rep.median-odd). core: after createRepresentativeBlocks() the "
+    "environment group of every block of a represented group must be the one judged before, blocks of unrepresented groups may only be re-labelled to a "
+    "represented group of their type (documented in _modifyUnrepresentedXSIDs), and the partition is judged again on a second makeCrossSectionGroups(). A case = one grouping of one core or one representative of one member set; distinct = "
     "(representation, by-component, layout mode, #members, #candidates, weighting class, filter, agreeing members); non-trivial = "
     ">= 2 candidates with differing weights or values (rep), >= 2 groups (core)."
 )
@@ -39,7 +47,14 @@ _FLOOR_Q = {"label.roundtrip": 2756, "label.param-setter": 2756, "label.collisio
             "group.boundary-exact-temperature": 200, "group.temperature-helper": 2000, "core.rep": 1000, "core.unchanged": 4000, "rep.nd-block-mean": 500,
             "rep.nd-component-mean": 250, "rep.cylinder-component-mean": 200, "rep.nuclide-temperature": 1200, "rep.component-temperature": 1500, "rep.minmax": 2000,
             "rep.common-value": 150, "rep.duplicate": 400, "rep.rescale": 400, "rep.burnup": 800, "rep.median": 300, "rep.median-odd": 200, "rep.unchanged": 3000,
-            "rep.filter-active": 350, "rep.fallback-expected": 40}
+            "rep.filter-active": 350, "rep.fallback-expected": 40,
+            # duct-heterogeneous cylinder, slab, environment groups after createRepresentativeBlocks(), second grouping (smallest count over seeds 0-5 in brackets)
+            "rep.ducthet-component-mean": 150, "rep.ducthet-nuclide-temperature": 150, "rep.ducthet-differs-from-whole-block": 120,  # [365, 365, 334]
+            "rep.slab-component-mean": 130, "rep.slab-reversed-member": 50, "rep.component-temperature-exact": 1500,  # [327, 141, 3686]
+            "core.rep-cylinder": 100, "core.rep-ducthet": 40, "core.rep-ducthet-differing-weights": 12,  # [288, 112, 36]
+            "core.envgroup-kept": 3000, "core.envgroup-unrepresented": 800, "core.envgroup-relabel-seen": 25,  # [7170, 2209, 68]
+            "group.core-after-representatives": 200, "group.block-after-representatives": 4000, "group.boundary-exact-burnup-after-representatives": 1000,  # [280 by plan, 9661, 2725]
+            "group.boundary-exact-temperature-after-representatives": 200, "group.temperature-helper-after-representatives": 2000}  # [560, 5537]
 FLOORS = {"quick": _FLOOR_Q, "thorough": {k: (v if k.startswith("label.") else 15 * v) for k, v in _FLOOR_Q.items()}}
 TIMEOUT = {"quick": 900, "thorough": 7200}
 ASSUMPTIONS = [
@@ -47,12 +62,22 @@ ASSUMPTIONS = [
     "the block temperature used for temperature grouping is read with armi's getBlockNuclideTemperature helper (cross-checked to 1e-9 against "
     "the independent atom-weighted mean) so that a value exactly on a boundary is classified from the same float armi sees",
     "nuclide temperature reference = sum_b w_b sum_c N'_c V_c T_c / sum_b w_b sum_c N'_c V_c (formula in calcAvgNuclideTemperatures' docstring, "
-    "N' = trace where a listed nuclide is present with zero density)",
+    "N' = trace where a listed nuclide is present with zero density; the trace value is armi.utils.units.TRACE_NUMBER_DENSITY)",
+    "duct-heterogeneous reference: the components inside the duct are all but `duct` and `intercoolant`, read off the generator's own block layout "
+    "(vlib.gen.pin_block_spec lists pins, coolant, duct, intercoolant); the block weights remain those of the whole block",
+    "slab reference: plates are matched by the slab position the generator wrote into the component name (a member may list them in reverse); exactly equal "
+    "plate areas are a documented precondition of the class, so a member with a hotter or missing plate may be refused",
 ]
 
 LETTERS = string.ascii_uppercase + string.ascii_lowercase  # written here from the statement, compared with armi's list at run time
 REPR_CLASS = {"Median": "MedianBlockCollection", "Average": "AverageBlockCollection", "FluxWeightedAverage": "FluxWeightedAverageBlockCollection",
-              "ComponentAverage1DCylinder": "CylindricalComponentsAverageBlockCollection"}
+              "ComponentAverage1DCylinder": "CylindricalComponentsAverageBlockCollection",
+              "ComponentAverage1DCylinderDuctHet": "CylindricalComponentsDuctHetAverageBlockCollection",  # ComponentAverage1DCylinder + ductHeterogeneous: true
+              "ComponentAverage1DSlab": "SlabComponentsAverageBlockCollection"}
+CYLINDER_KINDS = ("ComponentAverage1DCylinder", "ComponentAverage1DCylinderDuctHet")
+COMPONENT_KINDS = CYLINDER_KINDS + ("ComponentAverage1DSlab",)
+# vlib.gen.pin_block_spec lists [pins..., coolant, duct, intercoolant]: everything but these two names lies inside the duct
+OUTSIDE_DUCT = ("duct", "intercoolant")
 TYPE_POOL = {"fuel": ["fuel", "fuel", "igniter fuel", "feed fuel"], "control": ["control"], "shield": ["shield"], "plenum": ["plenum"], "reflector": ["reflector"]}
 FILTERS = [None, None, ["fuel"], ["fuel"], ["feed fuel"], ["igniter fuel", "control"], ["shield", "reflector"], ["control"], ["fuel", "plenum"]]
 FLUIDS = {"Sodium", "Lead", "LeadBismuth", "Void"}
@@ -62,7 +87,7 @@ def plan(tier, seed):
     q = tier == "quick"
     out = [{"name": "labels", "kind": "labels"}]
     out += [{"name": "core%d" % i, "kind": "cores", "n": 40 if q else 500, "max_rings": 4 if q else 5, "max_blocks": 5 if q else 7} for i in range(7)]
-    out += [{"name": "rep%d" % i, "kind": "reps", "n": 200 if q else 3000} for i in range(8)]
+    out += [{"name": "rep%d" % i, "kind": "reps", "n": 300 if q else 4500} for i in range(8)]
     return out
 
 
@@ -155,6 +180,7 @@ def obs_block(b, light=False):
     comps = []
     for c in b:
         cp = None
+        area, volume = norm(c.getArea()), norm(c.getVolume())  # first: p.volume is documented to be unset until getVolume() is called
         if not light:
             cp = {}
             for pd in c.p.paramDefs:
@@ -162,7 +188,7 @@ def obs_block(b, light=False):
                     cp[pd.name] = norm(c.p[pd.name])
                 except Exception as e:
                     cp[pd.name] = "unset:" + type(e).__name__
-        comps.append((id(c), c.name, norm(c.temperatureInC), norm(c.inputTemperatureInC), tuple(sorted(c.p.numberDensities.items())), cp, norm(c.getArea()), norm(c.getVolume())))
+        comps.append((id(c), c.name, norm(c.temperatureInC), norm(c.inputTemperatureInC), tuple(sorted(c.p.numberDensities.items())), cp, area, volume))
     return {"params": P, "comps": comps, "name": b.name, "parent": id(b.parent), "n": len(b), "height": b.getHeight()}
 
 
@@ -348,13 +374,14 @@ def judge_representative(rec, cfg, members, cands, rep, avgT, nucs, w, where, ex
 
     seen = {}
 
-    def nuclide_temperatures(tabs_, wts_, tag):
+    def nuclide_temperatures(tabs_, wts_, tag, alt=None):
         try:
-            return nuclide_temperatures_(tabs_, wts_, tag)
+            return nuclide_temperatures_(tabs_, wts_, tag, alt)
         finally:
             flush_seen()
 
-    def nuclide_temperatures_(tabs_, wts_, tag):
+    def nuclide_temperatures_(tabs_, wts_, tag, alt=None):
+        """alt = (mechanism key, description, tables): a second, WRONG reference; a mismatch it explains is reported under its own key."""
         terms = [nuc_terms(t, nucs, TRACE_NUMBER_DENSITY) for t in tabs_]
         num = sum(w_ * t_[0] for w_, t_ in zip(wts_, terms))
         den = sum(w_ * t_[1] for w_, t_ in zip(wts_, terms))
@@ -363,9 +390,16 @@ def judge_representative(rec, cfg, members, cands, rep, avgT, nucs, w, where, ex
             if n not in avgT:
                 rec.violation("nuclide-temperature/missing/%s" % cfg.representation, "%s: no average temperature reported for %s" % (where, n), dict(w, nuclide=n))
                 break
-            exp = 0.0 if den[i] == 0.0 else num[i] / den[i]
+            exp = 0.0 if den[i] == 0.0 else float(num[i] / den[i])
             got = float(avgT[n])
             if not close(got, exp, scale=1000.0):
+                if alt is not None:
+                    at = [nuc_terms(t, nucs, TRACE_NUMBER_DENSITY) for t in alt[2]]
+                    an, ad = sum(w_ * t_[0] for w_, t_ in zip(wts_, at)), sum(w_ * t_[1] for w_, t_ in zip(wts_, at))
+                    if ad[i] > 0 and close(got, an[i] / ad[i], scale=1000.0):
+                        rec.violation(alt[0], "%s: T(%s)=%r, atom-and-weight-normalised mean of the candidates %r; %s gives %r" % (where, n, got, exp, alt[1], float(an[i] / ad[i])),
+                                      dict(w, nuclide=n, got=got, expected=float(exp), weights=wts_.tolist(), symmetry_factors=[t["sym"] for t in tabs_]))
+                        break
                 rec.violation("nuclide-temperature/not-the-weighted-mean/%s" % tag, "%s: T(%s)=%r, atom-and-weight-normalised mean of the candidates %r" % (where, n, got, exp),
                               dict(w, nuclide=n, got=got, expected=exp, weights=wts_.tolist()))
                 break
@@ -385,7 +419,30 @@ def judge_representative(rec, cfg, members, cands, rep, avgT, nucs, w, where, ex
     if cfg.representation == "Median":
         return judge_median(rec, cfg, members, cands, tabs, wts, rep, rt, avgT, nucs, w, where, out, nuclide_temperatures)
 
-    nuclide_temperatures(tabs, wts, cfg.representation)
+    if cfg.representation == "ComponentAverage1DSlab":
+        # the slab representation documents no nuclide temperatures (its helper is not implemented): nothing is reported, nothing judged
+        if avgT:
+            rec.add("slab_reports_nuclide_temperatures")
+        rec.skip("1D-slab representation reports no nuclide temperatures (none documented); only its densities and burnup are judged")
+    elif cfg.representation == "ComponentAverage1DCylinderDuctHet":
+        # documented: "average nuclide temperatures based only on the components that are inside of the duct"; block weights as ever
+        inner = [dict(t, comps=[x for x in t["comps"] if x["name"] not in OUTSIDE_DUCT]) for t in tabs]
+        rec.hit("rep.ducthet-nuclide-temperature")
+        whole = [nuc_terms(t, nucs, TRACE_NUMBER_DENSITY) for t in tabs]
+        part = [nuc_terms(t, nucs, TRACE_NUMBER_DENSITY) for t in inner]
+        nw, dw = sum(w_ * t_[0] for w_, t_ in zip(wts, whole)), sum(w_ * t_[1] for w_, t_ in zip(wts, whole))
+        np_, dp = sum(w_ * t_[0] for w_, t_ in zip(wts, part)), sum(w_ * t_[1] for w_, t_ in zip(wts, part))
+        if any(dw[k] > 0 and dp[k] > 0 and abs(nw[k] / dw[k] - np_[k] / dp[k]) > 1e-3 for k in range(len(nucs))):
+            rec.hit("rep.ducthet-differs-from-whole-block")  # the case can tell the two documented temperature rules apart
+        alt = None
+        if any(t["sym"] != 1 for t in tabs):
+            # the same sum with the FULL component volumes of a member that the core's symmetry cuts (its block volume and weight are the reduced ones)
+            alt = ("nuclide-temperature/duct-heterogeneous/symmetry-reduced-member-counted-with-full-volume",
+                   "counting the members cut by the core symmetry (factors %s) with their full instead of their actual volume" % [t["sym"] for t in tabs],
+                   [dict(t, comps=[dict(x, V=x["V"] * t["sym"]) for x in t["comps"]]) for t in inner])
+        nuclide_temperatures(inner, wts, cfg.representation, alt)
+    else:
+        nuclide_temperatures(tabs, wts, cfg.representation)
 
     # ---------------------------------------------------------------- number densities
     def mean_check(member_vals, weights, got_vals, names, key, what, exact_key=None):
@@ -423,13 +480,26 @@ def judge_representative(rec, cfg, members, cands, rep, avgT, nucs, w, where, ex
     orders = [sorted_names(b) for b in cands]
     same_layout = all(o == orders[0] for o in orders)
     out["by_component_expected"] = False
-    if cfg.representation == "ComponentAverage1DCylinder":
+    if cfg.representation in COMPONENT_KINDS:
         # per matching component, weight = block weight x component area (docstring of _getAverageComponentNucs)
-        rec.hit("rep.cylinder-component-mean")
-        rep_order = sorted_names(rep)
-        if not same_layout or rep_order != orders[0]:
-            rec.skip("1D-cylinder representative accepted for candidates whose sorted component names differ; not judged")
-            return out
+        if cfg.representation == "ComponentAverage1DSlab":
+            # plates are matched by their position in the slab, which the generator wrote into the component name; a member may list
+            # them in reverse order; the zero-area void lattice component is documented to be dropped from the representative
+            rep_order = [c.name for c in rep]
+            plates = [sorted(x["name"] for x in t["comps"] if x["name"].startswith("plate")) for t in tabs]
+            if any(p != plates[0] for p in plates) or sorted(n for n in rep_order if n.startswith("plate")) != plates[0]:
+                rec.skip("1D-slab representative accepted for candidates whose plates differ; not judged")
+                return out
+            rep_order = [n for n in rep_order if n.startswith("plate")]
+            rec.hit("rep.slab-component-mean")
+        else:
+            rep_order = sorted_names(rep)
+            if not same_layout or rep_order != orders[0]:
+                rec.skip("1D-cylinder representative accepted for candidates whose sorted component names differ; not judged")
+                return out
+            rec.hit("rep.cylinder-component-mean")
+            if cfg.representation == "ComponentAverage1DCylinderDuctHet":
+                rec.hit("rep.ducthet-component-mean")
         out["comp_nd"] = {}
         for pos, cname in enumerate(rep_order):
             xs = [t["by"][cname] for t in tabs]
@@ -441,7 +511,8 @@ def judge_representative(rec, cfg, members, cands, rep, avgT, nucs, w, where, ex
                 continue
             got = [rt["by"][cname]["nd"].get(n, 0.0) for n in cn]
             out["comp_nd"][cname] = dict(zip(cn, got))
-            if not mean_check([[x["nd"].get(n, 0.0) for n in cn] for x in xs], cw, got, cn, "cylinder-component-density", "component %s N" % cname):
+            if not mean_check([[x["nd"].get(n, 0.0) for n in cn] for x in xs], cw, got, cn,
+                              "slab-component-density" if cfg.representation == "ComponentAverage1DSlab" else "cylinder-component-density", "component %s N" % cname):
                 break
     else:
         by_comp = cfg.by_component and same_layout
@@ -482,6 +553,7 @@ def judge_representative(rec, cfg, members, cands, rep, avgT, nucs, w, where, ex
                     break
                 cw = np.array([w_ / t["V"] * x["m"] for w_, t, x in zip(wts, tabs, xs)])
                 if exact_comp_temperature and cw.sum() > 0:
+                    rec.hit("rep.component-temperature-exact")
                     expT = float(np.average(np.array(Ts), weights=cw))
                     if not close(gotT, expT, scale=1000.0):
                         rec.violation("average/by-component/temperature/not-the-mass-weighted-mean", "%s: component %s T=%r, (weight/volume x component mass)-normalised mean %r" % (
@@ -660,15 +732,103 @@ def make_set(rng):
     return {"blocks": blocks, "types": types, "mode": mode, "agree": agree, "wclass": wclass, "n": n}
 
 
+PLATE_MATERIALS = ["UZr", "UO2", "HT9", "Sodium", "Zr", "B4C", "Graphite", "Inconel600", "UZr", "Sodium"]
+
+
+def make_slab_set(rng):
+    """Slab-like members for ComponentAverage1DSlab: Cartesian blocks of 1-5 rectangular plates (pairwise distinct thickness, shared
+    width, multiplicity and temperature per plate position: the class demands exactly equal plate areas), an optional zero-area void
+    `lattice` component, some members listing their plates in reverse order (documented to be recognised), compositions, heights,
+    burnups and weights as in make_set. Mode `slab-inconsistent`: one member has a hotter plate or lacks a plate."""
+    from armi.reactor import blocks as ablocks
+    from armi.reactor.components import basicShapes
+
+    n = rng.choice([1, 2, 2, 3, 3, 3, 4, 5, 5, 6, 7, 8, 9, 12])
+    nplates = rng.choice([1, 2, 3, 3, 4, 5])
+    width = rng.uniform(3, 8)
+    mats = [rng.choice(PLATE_MATERIALS) for _ in range(nplates)]
+    if not any(m in ("UZr", "UO2") for m in mats):
+        mats[rng.randrange(nplates)] = rng.choice(["UZr", "UO2"])
+    thick = sorted(rng.sample(range(20, 220), nplates))  # pairwise distinct -> a reversed member can never pass the forward comparison
+    rng.shuffle(thick)
+    thick = [t / 100.0 + rng.uniform(0, 0.004) for t in thick]
+    mult = rng.choice([1, 1, 2])
+    temps = [rng.uniform(350, 550) if m in FLUIDS else rng.uniform(300, 800) for m in mats]
+    lattice = rng.random() < .7
+    inconsistent = n > 1 and rng.random() < .15
+    mode = "slab-inconsistent" if inconsistent else "slab"
+    odd = rng.randrange(n) if inconsistent else None
+    odd_how = rng.choice(["hotter-plate", "missing-plate"]) if nplates > 1 else "hotter-plate"
+    agree = (not inconsistent) and rng.random() < .18
+    agree_f = {}
+    extra_nuc = rng.random() < .3
+    zero_flux = rng.random()
+    wclass = "all-zero" if zero_flux < .25 else ("mixed" if zero_flux < .35 and n > 1 else "all-positive")
+    blocks, types, reversed_members = [], [], 0
+    for i in range(n):
+        b = ablocks.CartesianBlock("M%03d" % i)
+        comps = []
+        for k in range(nplates):
+            if i == odd and odd_how == "missing-plate" and k == nplates - 1:
+                continue
+            T = temps[k] + (150.0 if (i == odd and odd_how == "hotter-plate" and k == 0) else 0.0)
+            Tin = T if mats[k] in FLUIDS else 25.0
+            comps.append(basicShapes.Rectangle("plate%d" % k, mats[k], Tin, T, lengthOuter=thick[k], lengthInner=0.0, widthOuter=width, widthInner=0.0, mult=mult))
+        if lattice and nplates > 1 and rng.random() < .3:
+            comps.reverse()
+            reversed_members += 1
+        if lattice:
+            comps.append(basicShapes.Rectangle("lattice", "Void", 25.0, 25.0, lengthOuter=sum(thick), lengthInner=sum(thick), widthOuter=width, widthInner=width, mult=1))
+        for c in comps:
+            b.add(c)
+        b.setHeight(rng.uniform(5, 60))
+        typ = rng.choice(TYPE_POOL[rng.choice(["fuel", "fuel", "fuel", "control", "shield"])])
+        b.setType(typ)
+        b.p.xsType = "A"
+        for c in b:
+            nd = dict(c.p.numberDensities)
+            if not nd:
+                continue
+            if agree:
+                f = agree_f.setdefault(c.name, {k: rng.uniform(.3, 1.7) for k in nd})
+                new = {k: v * f[k] for k, v in nd.items()}
+            else:
+                new = {k: (0.0 if rng.random() < .04 else v * rng.uniform(.3, 1.7)) for k, v in nd.items()}
+            c.setNumberDensities(new)
+        if extra_nuc and not agree and rng.random() < .5:
+            # a nuclide only a few members hold; AM241 is not among the nuclides the class requires to be present consistently
+            b.getComponentByName("plate0").setNumberDensity("AM241", rng.uniform(1e-6, 1e-3))
+        b.p.percentBu = rng.choice([0.0, 0.0, rng.uniform(0, 40), rng.uniform(0, 40), float(rng.randint(0, 5))])
+        b.p.massHmBOL = rng.choice([0.0, rng.uniform(100, 5000), rng.uniform(100, 5000), rng.uniform(100, 5000)])
+        if wclass == "all-zero":
+            fl = 0.0
+        elif wclass == "mixed":
+            fl = 0.0 if i % 2 else 10 ** rng.uniform(10, 16)
+        else:
+            fl = 10 ** rng.uniform(10, 16)
+        b.p.flux = fl
+        b.p.power = fl * 1e-9
+        blocks.append(b)
+        types.append(typ)
+    return {"blocks": blocks, "types": types, "mode": mode, "agree": agree, "wclass": wclass, "n": n, "odd": odd, "odd_how": odd_how if inconsistent else None,
+            "reversed": reversed_members, "lattice": lattice, "nplates": nplates}
+
+
 def make_collection(cfg, nucs):
     from armi.physics.neutronics import crossSectionGroupManager as xsgm
 
     cls = {"Median": xsgm.MedianBlockCollection, "Average": xsgm.AverageBlockCollection, "FluxWeightedAverage": xsgm.FluxWeightedAverageBlockCollection,
-           "ComponentAverage1DCylinder": xsgm.CylindricalComponentsAverageBlockCollection}[cfg.representation]
+           "ComponentAverage1DCylinder": xsgm.CylindricalComponentsAverageBlockCollection,
+           "ComponentAverage1DCylinderDuctHet": xsgm.CylindricalComponentsDuctHetAverageBlockCollection,
+           "ComponentAverage1DSlab": xsgm.SlabComponentsAverageBlockCollection}[cfg.representation]
     bc = cls(list(nucs), validBlockTypes=cfg.valid, averageByComponent=cfg.by_component)
     if cfg.representation != "FluxWeightedAverage":
         bc.weightingParam = cfg.wp
     return bc
+
+
+REP_KINDS = ["Average", "Average", "FluxWeightedAverage", "FluxWeightedAverage", "Median", "Median", "ComponentAverage1DCylinder", "ComponentAverage1DCylinder",
+             "ComponentAverage1DCylinderDuctHet", "ComponentAverage1DCylinderDuctHet", "ComponentAverage1DSlab", "ComponentAverage1DSlab"]
 
 
 def do_reps(spec, rec):
@@ -676,13 +836,13 @@ def do_reps(spec, rec):
 
     for i in range(spec["n"]):
         rng = random.Random("%s:%d" % (spec["rng"], i))
+        rep_kind = REP_KINDS[rng.randrange(len(REP_KINDS))]
         try:
-            st = make_set(rng)
+            st = make_slab_set(rng) if rep_kind == "ComponentAverage1DSlab" else make_set(rng)
         except Exception as e:
-            rec.crash("build-block-set", e, {"case": i})
+            rec.crash("build-block-set", e, {"case": i, "kind": rep_kind})
             continue
         blocks, types = st["blocks"], st["types"]
-        rep_kind = rng.choice(["Average", "Average", "FluxWeightedAverage", "FluxWeightedAverage", "Median", "Median", "ComponentAverage1DCylinder", "ComponentAverage1DCylinder"])
         wp = "flux" if rep_kind == "FluxWeightedAverage" else rng.choice([None, None, "flux", "power"])
         tw = {id(b): words(t) for b, t in zip(blocks, types)}
         valid = rng.choice(FILTERS)
@@ -705,6 +865,12 @@ def do_reps(spec, rec):
         bc.extend(blocks)
         before = [obs_block(b) for b in blocks]
         mixed = wp is not None and len({bool(b.p[wp]) for b in cands}) == 2
+        # the one inconsistent slab member is eligible and has to be matched with another eligible member: refusal is the documented outcome
+        slab_odd = st.get("odd") is not None and len(cands) > 1 and any(b is blocks[st["odd"]] for b in cands)
+        if rep_kind == "ComponentAverage1DSlab":
+            w.update(plates=st["nplates"], lattice=st["lattice"], reversed_members=st["reversed"], inconsistent_member=st["odd"], inconsistency=st["odd_how"])
+            if st["reversed"] and not slab_odd:
+                rec.hit("rep.slab-reversed-member")
         try:
             with quiet():
                 rep = bc.createRepresentativeBlock()
@@ -712,15 +878,20 @@ def do_reps(spec, rec):
             msg = str(e)
             if mixed and "mixture of zero and non-zero weighting" in msg:
                 rec.reject("mixed zero / non-zero weighting factors")
-            elif rep_kind == "ComponentAverage1DCylinder" and ("differing number of components" in msg or "same multiplicity" in msg or "nuclides" in msg):
+            elif rep_kind in CYLINDER_KINDS and ("differing number of components" in msg or "same multiplicity" in msg or "nuclides" in msg):
                 rec.reject("1D-cylinder averaging refused inconsistent members")
+            elif slab_odd and ("differing number of components" in msg or "differing thicknesses" in msg):
+                rec.reject("1D-slab averaging refused a member with a thermally expanded or a missing plate")
             else:
                 rec.crash("createRepresentativeBlock/%s" % rep_kind, e, w)
             check_unchanged(rec, blocks, before, "rep.unchanged", "member", w)
             continue
         except Exception as e:
-            if rep_kind == "ComponentAverage1DCylinder" and st["mode"] != "shared":
+            if rep_kind in CYLINDER_KINDS and st["mode"] != "shared":
                 rec.reject("1D-cylinder averaging failed on members with differing layouts (%s)" % type(e).__name__)
+            elif slab_odd and isinstance(e, IndexError) and not st["lattice"]:
+                # the refusal of the inconsistent member surfaces from the reverse-order attempt, which presumes a lattice component
+                rec.reject("1D-slab averaging refused a member with a thermally expanded or a missing plate (IndexError from the reverse-order attempt, no lattice component)")
             elif cfg.by_component and isinstance(e, IndexError) and count_blind([sorted_names(b) for b in cands]):
                 rec.violation("average/by-component/similarity-ignores-component-count", "%s by component: candidates with %s components pass the similarity test "
                               "(component counts are not compared) and averaging then raises IndexError instead of falling back to block-level averaging" % (
@@ -733,10 +904,9 @@ def do_reps(spec, rec):
             rec.add("mixed_weights_accepted")
         check_unchanged(rec, blocks, before, "rep.unchanged", "member", w)
         where = "%s%s" % (rep_kind, "(by component)" if cfg.by_component else "")
-        try:
-            base = judge_representative(rec, cfg, blocks, cands, rep, dict(bc.avgNucTemperatures), nucs, w, where)
-        except Exception as e:
-            raise
+        # the exact component-temperature reference presumes a common block cross-section area (armi uses the height as a proxy for the volume)
+        same_area = len({round(t_["V"] / t_["h"], 9) for t_ in (table(b) for b in cands)}) == 1
+        base = judge_representative(rec, cfg, blocks, cands, rep, dict(bc.avgNucTemperatures), nucs, w, where, exact_comp_temperature=same_area)
         nontrivial = len(cands) >= 2 and (not st["agree"] or len({b.getHeight() for b in cands}) > 1)
         rec.case(sig, nontrivial=nontrivial, sample=dict(w, nuclides=nucs[:8]) if i < 2 else None)
         if rep_kind == "Median" or not base:
@@ -755,10 +925,8 @@ def do_reps(spec, rec):
             with quiet():
                 rep2 = bc2.createRepresentativeBlock()
             rec.hit("rep.duplicate")
-            c2 = [b for b in order if is_candidate(tw[id(b)], cfg.valid)]
             o2 = values_only(cfg, rep2, dict(bc2.avgNucTemperatures), nucs, base)
             compare_metamorphic(rec, base, o2, "metamorphic/duplicate-every-member/%s" % rep_kind, where, w)
-            del c2
         except Exception as e:
             rec.crash("createRepresentativeBlock/duplicated-members/%s" % rep_kind, e, w)
         # ---- metamorphic 2: every weight rescaled by the same factor
@@ -810,6 +978,7 @@ def do_cores(spec, rec):
     import numpy as np
 
     from armi.physics.neutronics import crossSectionGroupManager as xsgm
+    from armi.utils.units import TRACE_NUMBER_DENSITY
     from vlib import gen
     from vlib.env import quiet
 
@@ -842,6 +1011,12 @@ def do_cores(spec, rec):
             cyl_letter = rng.choice([x for x in LETTERS if x not in alphabet and not any(len(y) == 2 and y[0] == x for y in alphabet)])
             d, k = rng.choice(fuel_specs)
             cspec["assemblies"][d]["xs types"][k] = cyl_letter
+            others = [j for j in range(len(cspec["assemblies"][d]["blocks"])) if j != k]
+            if others and rng.random() < .6:
+                # the same block design once more at another elevation (another height): members of the 1D-cylinder group then differ in weight
+                k2 = rng.choice(others)
+                cspec["assemblies"][d]["blocks"][k2] = cspec["assemblies"][d]["blocks"][k]
+                cspec["assemblies"][d]["xs types"][k2] = cyl_letter
         # ---------------- per-type settings (keyed <type>A: the documented source of settings for every environment group of the type)
         glob_repr = rng.choice(["Average", "Average", "Median", "FluxWeightedAverage"])
         disable_excl = rng.random() < .5
@@ -857,8 +1032,13 @@ def do_cores(spec, rec):
                 d = {"geometry": "1D cylinder", "blockRepresentation": "ComponentAverage1DCylinder", "validBlockTypes": rng.choice([None, ["fuel"]])}
                 if d["validBlockTypes"] is None:
                     del d["validBlockTypes"]
+                duct_het = rng.random() < .5
+                if duct_het:
+                    d["ductHeterogeneous"] = True
+                elif rng.random() < .3:
+                    d["ductHeterogeneous"] = False
                 xs_control[key] = d
-                per_type[t] = {"repr": "ComponentAverage1DCylinder", "valid": d.get("validBlockTypes", "global"), "byc": False, "iso": "U238"}
+                per_type[t] = {"repr": "ComponentAverage1DCylinderDuctHet" if duct_het else "ComponentAverage1DCylinder", "valid": d.get("validBlockTypes", "global"), "byc": False, "iso": "U238"}
                 continue
             if rng.random() < .6:
                 d = {"geometry": "0D"}
@@ -947,54 +1127,63 @@ def do_cores(spec, rec):
             rec.crash("makeCrossSectionGroups", e, w)
             continue
         # ---------------- partition
-        rec.hit("group.core")
-        where_is = {}
-        for key, coll in groups.items():
-            for b in coll:
-                where_is.setdefault(id(b), []).append(key)
         nB = len(bu_bounds) + 1
-        ok = True
-        for b in core_blocks:
-            rec.hit("group.block")
-            keys = where_is.get(id(b), [])
-            bw = dict(w, block=b.getName(), xsType=b.p.xsType, percentBu=b.p.percentBu, type=b.getType())
-            if len(keys) != 1:
-                rec.violation("grouping/block-in-%s-groups" % ("no" if not keys else "several"), "block %s is in groups %s" % (b.getName(), keys), bw)
-                ok = False
-                continue
-            t = b.p.xsType
-            if single:
-                letter = preset_env[id(b)]
-            else:
-                bi = bisect.bisect_left(bu_bounds, b.p.percentBu)  # bound is the inclusive upper edge of its group
-                if b.p.percentBu in bu_bounds:
-                    rec.hit("group.boundary-exact-burnup")
-                ti = 0
-                iso = per_type[t]["iso"]
-                if t_bounds and iso:
-                    T_armi = float(np.asarray(xsgm.getBlockNuclideTemperature(b, iso), dtype=float).reshape(-1)[0])
-                    tb = table(b)
-                    num = sum((x["nd"][iso] or 1e-50) * x["V"] * x["T"] for x in tb["comps"] if iso in x["nd"])
-                    den = sum((x["nd"][iso] or 1e-50) * x["V"] for x in tb["comps"] if iso in x["nd"])
-                    T_mine = num / den if den > 0 else 0.0
-                    rec.hit("group.temperature-helper")
-                    if abs(T_armi - T_mine) > TOLERANCES["helper_temperature_rel"] * max(abs(T_mine), 1.0):
-                        rec.violation("grouping/block-temperature-helper", "getBlockNuclideTemperature(%s, %s)=%r, atom-weighted mean of the components %r" % (b.getName(), iso, T_armi, T_mine), bw)
-                    ti = bisect.bisect_left(t_bounds, T_armi)
-                    if T_armi in t_bounds:
-                        rec.hit("group.boundary-exact-temperature")
-                    bw["isotopeTemperature"] = T_armi
-                idx = ti * nB + bi
-                letter = LETTERS[idx]
-                bw["expectedEnvIndex"] = idx
-            exp_key = t + letter if len(t) == 1 else t
-            if b.p.envGroup != letter:
-                rec.violation("grouping/environment-group-wrong", "block %s (bu %r) has environment group %r, its burnup/temperature determine %r" % (
-                    b.getName(), b.p.percentBu, b.p.envGroup, letter), bw)
-                ok = False
-            elif keys[0] != exp_key:
-                rec.violation("grouping/block-in-wrong-group", "block %s is in group %r, its type and environment determine %r" % (b.getName(), keys[0], exp_key), bw)
-                ok = False
+
+        def judge_partition(groups_, env_given, stage):
+            """Every core block in exactly one group, the one its xs type and environment determine. `env_given`: the environment group a
+            block carried into the call (decides when there is a single environment group and grouping must not touch it)."""
+            sfx = "" if stage == "first" else "-after-representatives"
+            tag = "" if stage == "first" else "/second-grouping-after-representatives"
+            rec.hit("group.core" + sfx)
+            where_ = {}
+            for key, coll in groups_.items():
+                for b in coll:
+                    where_.setdefault(id(b), []).append(key)
+            ok_ = True
+            for b in core_blocks:
+                rec.hit("group.block" + sfx)
+                keys = where_.get(id(b), [])
+                bw = dict(w, block=b.getName(), xsType=b.p.xsType, percentBu=b.p.percentBu, type=b.getType(), stage=stage)
+                if len(keys) != 1:
+                    rec.violation("grouping/block-in-%s-groups%s" % ("no" if not keys else "several", tag), "block %s is in groups %s" % (b.getName(), keys), bw)
+                    ok_ = False
+                    continue
+                t = b.p.xsType
+                if single:
+                    letter = env_given[id(b)]
+                else:
+                    bi = bisect.bisect_left(bu_bounds, b.p.percentBu)  # bound is the inclusive upper edge of its group
+                    if b.p.percentBu in bu_bounds:
+                        rec.hit("group.boundary-exact-burnup" + sfx)
+                    ti = 0
+                    iso = per_type[t]["iso"]
+                    if t_bounds and iso:
+                        T_armi = float(np.asarray(xsgm.getBlockNuclideTemperature(b, iso), dtype=float).reshape(-1)[0])
+                        tb = table(b)
+                        num = sum((x["nd"][iso] or TRACE_NUMBER_DENSITY) * x["V"] * x["T"] for x in tb["comps"] if iso in x["nd"])
+                        den = sum((x["nd"][iso] or TRACE_NUMBER_DENSITY) * x["V"] for x in tb["comps"] if iso in x["nd"])
+                        T_mine = num / den if den > 0 else 0.0
+                        rec.hit("group.temperature-helper" + sfx)
+                        if abs(T_armi - T_mine) > TOLERANCES["helper_temperature_rel"] * max(abs(T_mine), 1.0):
+                            rec.violation("grouping/block-temperature-helper", "getBlockNuclideTemperature(%s, %s)=%r, atom-weighted mean of the components %r" % (b.getName(), iso, T_armi, T_mine), bw)
+                        ti = bisect.bisect_left(t_bounds, T_armi)
+                        if T_armi in t_bounds:
+                            rec.hit("group.boundary-exact-temperature" + sfx)
+                        bw["isotopeTemperature"] = T_armi
+                    idx = ti * nB + bi
+                    letter = LETTERS[idx]
+                    bw["expectedEnvIndex"] = idx
+                exp_key = t + letter if len(t) == 1 else t
+                if b.p.envGroup != letter:
+                    rec.violation("grouping/environment-group-wrong" + tag, "block %s (bu %r) has environment group %r, its burnup/temperature determine %r" % (
+                        b.getName(), b.p.percentBu, b.p.envGroup, letter), bw)
+                    ok_ = False
+                elif keys[0] != exp_key:
+                    rec.violation("grouping/block-in-wrong-group" + tag, "block %s is in group %r, its type and environment determine %r" % (b.getName(), keys[0], exp_key), bw)
+                    ok_ = False
+            return ok_, where_
+
+        ok, where_is = judge_partition(groups, preset_env, "first")
         # members that are not core blocks are copies of blueprint blocks whose group was absent from the core (documented)
         core_ids = set(map(id, core_blocks))
         for key, coll in groups.items():
@@ -1022,6 +1211,7 @@ def do_cores(spec, rec):
             continue
         # ---------------- representatives through the manager
         before = [obs_block(b) for b in core_blocks]
+        env_judged = {id(b): b.p.envGroup for b in core_blocks}  # the partition check above found each of them right
         try:
             with quiet():
                 csm.createRepresentativeBlocks()
@@ -1030,6 +1220,53 @@ def do_cores(spec, rec):
             check_unchanged(rec, core_blocks, before, "core.unchanged", "core-block", w)
             continue
         check_unchanged(rec, core_blocks, before, "core.unchanged", "core-block", w)
+        # ---------------- environment groups after creating representatives (excluded from the observation above, judged here)
+        # a block of a group that received a representative keeps the environment group judged just before; the blocks of a group without
+        # any eligible member may be re-labelled, as _modifyUnrepresentedXSIDs documents, "to something that is represented" of their type
+        represented = set(csm.representativeBlocks)
+        relabelled = 0
+        for b in core_blocks:
+            key = where_is[id(b)][0]
+            was, now = env_judged[id(b)], b.p.envGroup
+            bw = dict(w, block=b.getName(), group=key, envGroupBefore=was, envGroupAfter=now, represented=sorted(represented))
+            if key in represented:
+                rec.hit("core.envgroup-kept")
+                if now != was:
+                    rec.violation("creating-representatives-changed-a-core-block/environment-group-of-a-represented-group",
+                                  "block %s of group %s (which received a representative) had environment group %r, after createRepresentativeBlocks() it has %r" % (b.getName(), key, was, now), bw)
+                    break
+            else:
+                rec.hit("core.envgroup-unrepresented")
+                allowed = {k[1] for k in represented if len(k) == 2 and k[0] == key[0]} if len(b.p.xsType) == 1 else set()
+                if now != was:
+                    relabelled += 1
+                    if now not in allowed:
+                        rec.violation("creating-representatives-changed-a-core-block/unrepresented-group-relabelled-to-an-unrepresented-group",
+                                      "block %s of the unrepresented group %s: environment group %r -> %r, represented environment groups of its type: %s" % (
+                                          b.getName(), key, was, now, sorted(allowed)), bw)
+                        break
+        if relabelled:
+            rec.hit("core.envgroup-relabel-seen")
+            rec.add("core_blocks_of_unrepresented_groups_relabelled_to_a_represented_group (documented; not counted as a change of the core)", relabelled)
+        # ---------------- the partition once more, on a second grouping after the representatives were made
+        env_given2 = {id(b): b.p.envGroup for b in core_blocks}
+        before2 = [obs_block(b, light=True) for b in core_blocks]
+        try:
+            with quiet():
+                groups2 = csm.makeCrossSectionGroups()
+        except Exception as e:
+            rec.crash("makeCrossSectionGroups/after-representatives", e, w)
+            groups2 = None
+        if groups2 is not None:
+            judge_partition(groups2, env_given2, "second")
+            if sorted(groups2) != sorted(groups) and not relabelled:
+                rec.violation("grouping/second-grouping-after-representatives/different-groups", "groups %s before, %s after creating representatives (no block was re-labelled)" % (
+                    sorted(groups), sorted(groups2)), w)
+            for b, a in zip(core_blocks, before2):
+                d = diff_obs(a, obs_block(b, light=True))
+                if d:
+                    rec.violation("grouping-changed-a-core-block", "block %s changed by makeCrossSectionGroups (other than its environment group): %s" % (b.getName(), d[:8]), dict(w, stage="second"))
+                    break
         nucs = list(r.blueprints.allNuclidesInProblem)
         for key, coll in groups.items():
             t = key if key in per_type else key[0]
@@ -1051,6 +1288,12 @@ def do_cores(spec, rec):
                 continue
             cfg = Cfg(pt["repr"], by_component=pt["byc"], valid=pt["valid"], wp="flux" if pt["repr"] == "FluxWeightedAverage" else None)
             same_area = len({(round(tb_["V"] / tb_["h"], 9)) for tb_ in (table(b) for b in cands)}) == 1
+            if pt["repr"] in CYLINDER_KINDS:
+                rec.hit("core.rep-cylinder")
+            if pt["repr"] == "ComponentAverage1DCylinderDuctHet":
+                rec.hit("core.rep-ducthet")
+                if len({round(b.getVolume(), 6) for b in cands}) > 1:
+                    rec.hit("core.rep-ducthet-differing-weights")
             judge_representative(rec, cfg, members, cands, rep, dict(csm.avgNucTemperatures.get(key, {})), nucs, gw, "manager group %s %s" % (key, pt["repr"]),
                                  exact_comp_temperature=same_area)
             rec.case(["core-rep", pt["repr"], pt["byc"], len(members), len(cands), pt["valid"]], nontrivial=len(cands) >= 2)
